@@ -1335,6 +1335,7 @@ class LockSections:
             for bb2, t2 in ss:
                 if bb2 == bb1 or bb2 not in after:
                     continue
+                found = False
                 for g in switch_guards(body, bb2):
                     if g["bb"] not in after and g["bb"] != bb1:
                         continue
@@ -1346,8 +1347,20 @@ class LockSections:
                         if set(g["allowed"]) >= all_labels:
                             continue
                         out.append((bb1, t1, bb2, t2, g["bb"]))
+                        found = True
                         break
+                if not found and not self.is_lock(t2) and self.prog.body_for_callee(t2["callee"]) is None and \
+                        t2["callee"].get("method") in CONDITIONAL_ADAPTORS and t2["args"]:
+                    # `looked_up.unwrap_or_else(|| { lock again; act })`: the library decides from s1's result whether the
+                    # closure (the second critical section) runs
+                    sl = Slice(body).run(t2["args"][0])
+                    if any(ct is t1 for _k, _b, ct in sl["calls"]):
+                        out.append((bb1, t1, bb2, t2, bb2))
         return out, ss
+
+
+CONDITIONAL_ADAPTORS = {"unwrap_or_else", "or_else", "map_or_else", "ok_or_else", "and_then", "map", "map_or", "then", "get_or_insert_with",
+                        "or_insert_with", "is_some_and", "is_none_or", "filter", "inspect", "map_err", "unwrap_or_default"}
 
 
 # ------------------------------------------------------------------ "applied to every element" in loop or adaptor form
